@@ -52,7 +52,7 @@ func (s *spyStore) do(ctx context.Context, op, sid string, arg map[string]any, r
 	d := s.d
 	g := d.arrive("store", map[string]any{"op": op, "check": ctx.Value(checkKey{})})
 	ev := map[string]any{"ev": "store", "n": g.check.n, "c": g.check.id, "f": g.check.f, "store": s.id, "op": op,
-		"sid": d.symSid(sid), "fault": "none", "arg": arg}
+		"sid": d.symSid(sid), "fault": "none", "arg": arg, "lin": 0}
 	fault := g.dir.Fault
 	if fault == "" {
 		fault = "none"
@@ -65,6 +65,15 @@ func (s *spyStore) do(ctx context.Context, op, sid string, arg map[string]any, r
 	if fault == "before" {
 		err = errInjected
 		res = map[string]any{"ex": false}
+	} else if strings.HasPrefix(fault, "hold") {
+		// park this store call after its k-th Redis command until the scheduler resumes the check: other checks run in between
+		k, _ := strconv.Atoi(strings.TrimPrefix(fault, "hold"))
+		lin := d.holdAfterRedisCommand(g.check, k)
+		res, err = run()
+		d.clearRedisHook()
+		if *lin > 0 {
+			ev["lin"] = *lin // position in the trace at which the call was parked: its reads had been made by then
+		}
 	} else if strings.HasPrefix(fault, "cmd") {
 		// fail exactly the k-th Redis command this store call issues (a fault between two commands of one call)
 		k, _ := strconv.Atoi(strings.TrimPrefix(fault, "cmd"))
